@@ -801,6 +801,13 @@ def _make_schema_loop(schema: set[CIFSchema]) -> Loop | None:
     )
 
 
+# An unquoted string starting with one of these would be read as a tag, comment,
+# save frame reference, or text field, or is not allowed by the CIF 1.1 grammar.
+_RESERVED_LEADING_CHARS = '_#$[];'
+# Case-insensitive; an unquoted string must not begin with a reserved word.
+_RESERVED_WORDS = ('data_', 'loop_', 'global_', 'save_', 'stop_')
+
+
 def _quotes_for_string_value(value: str) -> str | None:
     if '\n' in value:
         return ';'
@@ -810,10 +817,14 @@ def _quotes_for_string_value(value: str) -> str | None:
         return '"'
     if '"' in value:
         return "'"
-    if ' ' in value:
+    if ' ' in value or '\t' in value:
         return "'"
     if not value:
         return "'"  # so that empty strings are shown as ''
+    if value[0] in _RESERVED_LEADING_CHARS:
+        return "'"
+    if value.lower().startswith(_RESERVED_WORDS):
+        return "'"
     return None
 
 
@@ -836,6 +847,12 @@ def _format_value(value: Any) -> str:
     s = _encode_non_ascii(s)
 
     if (quotes := _quotes_for_string_value(s)) == ';':
+        if '\n;' in s:
+            # Such a line would terminate the text field, CIF 1.1 has no escape for it.
+            raise ValueError(
+                "Cannot encode a multi-line string with a line that starts with ';' "
+                f"in CIF: {s!r}"
+            )
         return f'; {s}\n;'
     elif quotes is not None:
         return quotes + s + quotes
